@@ -1,0 +1,14 @@
+//go:build verif
+
+// Contracts for package xpair (comment-only; read by /verif/govc).
+
+package xpair
+
+//@ struct pipe
+//@   immutable: p s closeQ
+//@
+//@ struct socket
+//@   lock Mutex level 20
+//@   guarded_by Mutex: closed sizeQ peer recvQLen sendQLen recvExpire sendExpire bestEffort recvQ sendQ
+//@   immutable: closeQ
+//@
